@@ -28,6 +28,10 @@ type Global struct {
 	modsets   map[*ssa.Function]map[string]modInfo
 	modBusy   map[*ssa.Function]bool
 	busyHits  int
+	modDepth  int
+	modChanged bool
+	modRoundSeen map[*ssa.Function]bool
+	modProv   map[*ssa.Function]map[string]modInfo
 	fnKeyIDs  map[string]int
 	idKeys    []string
 	heapKinds map[string]string
